@@ -100,6 +100,25 @@ def _race_run(ctx, ops):
     lines = [l for l in p.stdout.split("\n") if l]
     info = {"race_build": "ok", "race_ops": len(sel), "race_answers": len(lines), "race_reports": p.stderr.count("WARNING: DATA RACE")}
     findings = []
+    # cold starts: a fresh process per op whose FIRST requests overlap (lazily initialised state is written under contention)
+    cold = []
+    for o in [x for x in sel if x.split()[1] == "conc"][:8]:
+        f = o.split()
+        cold.append(" ".join([f[0], "cold"] + f[2:]))
+    cold_reports = 0
+    for o in cold:
+        q = subprocess.run([out, "C14", "impl"], input=o + "\n", stdout=subprocess.PIPE, stderr=subprocess.PIPE, text=True, env=renv, timeout=600)
+        if "WARNING: DATA RACE" in q.stderr:
+            cold_reports += 1
+            if cold_reports == 1:
+                i = q.stderr.index("WARNING: DATA RACE")
+                findings.append(runner.Finding("counterexample", "race-detector", "data_race_free (search only: go build -race)", o,
+                                               "no data race report", q.stderr[i:i + 6000],
+                                               "first requests of a fresh server process, all at once; replay: VERIF_SEED=%d ./check C14 --tier thorough" % ctx["seed"]))
+        elif not q.stdout.startswith("ok cold") or " wrong=0" not in q.stdout:
+            findings.append(runner.Finding("counterexample", "race-build", "Relic.Props.C14.isolation", o, "ok cold ... wrong=0", (q.stdout + q.stderr[-1500:])[:3000], ""))
+    info["race_cold_ops"] = len(cold)
+    info["race_cold_reports"] = cold_reports
     if "WARNING: DATA RACE" in p.stderr:
         i = p.stderr.index("WARNING: DATA RACE")
         findings.append(runner.Finding("counterexample", "race-detector", "data_race_free (search only: go build -race)", sel[0] if sel else "",
